@@ -2,9 +2,12 @@ package props
 
 import (
 	"fmt"
+	"math"
 	"sort"
 	"strings"
 	"time"
+
+	"github.com/uhn/ggql/pkg/ggql"
 
 	"verif/mc/core"
 	"verif/mc/world"
@@ -229,7 +232,8 @@ func runC06(c *core.Ctx) {
 		sample(c, func() interface{} { return map[string]interface{}{"query": text, "fault_plans": "every single call of the reference call log x 5 kinds"} })
 		return true
 	})
-	c.R.Bound = fmt.Sprintf("documents within %d mutations of the bases; single faults (thorough: + all pairs for logs <= 10)", k)
+	c06Typed(c)
+	c.R.Bound = fmt.Sprintf("documents within %d mutations of the bases; single faults (thorough: + all pairs for logs <= 10); leaf lists of four behind typed Go slices and []interface{} x all 16 sets of failing positions x 3 ways of resolving", k)
 	if !completed {
 		c.Cap("deadline reached before the neighbourhood was completed")
 	}
@@ -298,4 +302,151 @@ func errorWithoutNull(o *world.Obs) string {
 		}
 	}
 	return ""
+}
+
+// ---- typed Go slices behind leaf lists: every subset of failing positions in a list of four, for every carrier the library
+// walks by reflection ([]int64, []string, []float64, and []interface{} for comparison) and every way of resolving. A failing
+// element is null with one entry at its index; every other element keeps its value.
+
+type C06TRoot struct{ Query *C06TQuery }
+type C06TQuery struct {
+	Wide    interface{}
+	Words   interface{}
+	Ratios  interface{}
+	Times   interface{}
+	Started interface{}
+}
+
+type c06TRes struct{ q *C06TQuery }
+
+func (r c06TRes) Resolve(f *ggql.Field, args map[string]interface{}) (interface{}, error) {
+	switch f.Name {
+	case "query":
+		return r, nil
+	case "wide":
+		return r.q.Wide, nil
+	case "words":
+		return r.q.Words, nil
+	case "ratios":
+		return r.q.Ratios, nil
+	case "times":
+		return r.q.Times, nil
+	}
+	return r.q.Started, nil
+}
+
+type c06TAny struct{ q *C06TQuery }
+
+func (a c06TAny) Resolve(obj interface{}, f *ggql.Field, args map[string]interface{}) (interface{}, error) {
+	return c06TRes(a).Resolve(f, args)
+}
+func (a c06TAny) Len(list interface{}) int {
+	if l, ok := list.([]interface{}); ok {
+		return len(l)
+	}
+	return 0
+}
+func (a c06TAny) Nth(list interface{}, i int) (interface{}, error) {
+	if l, ok := list.([]interface{}); ok && i < len(l) {
+		return l[i], nil
+	}
+	return nil, fmt.Errorf("no element %d", i)
+}
+
+func c06Typed(c *core.Ctx) {
+	const sdl = "type Query { wide: [Int] words: [Int] ratios: [Float] times: [Time] started: Time }\n"
+	const okTime = "2020-04-05T06:07:08Z"
+	var idx int64
+	for mask := 0; mask < 16; mask++ {
+		for _, generic := range []bool{false, true} {
+			for mode := 0; mode < 3; mode++ {
+				idx++
+				if !c.OwnsIdx(1<<41 + idx) {
+					continue
+				}
+				wide, words, ratios, times := make([]int64, 4), make([]string, 4), make([]float64, 4), make([]string, 4)
+				want := map[string]interface{}{}
+				wl, wo, wr, wt := make([]interface{}, 4), make([]interface{}, 4), make([]interface{}, 4), make([]interface{}, 4)
+				var wantPaths []string
+				for i := 0; i < 4; i++ {
+					wide[i], words[i], ratios[i], times[i] = int64(i+1), fmt.Sprint(10*(i+1)), float64(i)+0.5, okTime
+					wl[i], wo[i], wr[i], wt[i] = i+1, 10*(i+1), float64(i)+0.5, okTime
+					if mask&(1<<uint(i)) != 0 {
+						wide[i], words[i], ratios[i], times[i] = 1<<40, "x", math.NaN(), "last tuesday"
+						wl[i], wo[i], wr[i], wt[i] = nil, nil, nil, nil
+						for _, f := range []string{"wide", "words", "ratios", "times"} {
+							wantPaths = append(wantPaths, fmt.Sprintf("%s/%d", f, i))
+						}
+					}
+				}
+				want["wide"], want["words"], want["ratios"], want["times"] = wl, wo, wr, wt
+				q := &C06TQuery{Wide: wide, Words: words, Ratios: ratios, Times: times, Started: okTime}
+				if generic {
+					g := func(n int, at func(i int) interface{}) []interface{} {
+						out := make([]interface{}, n)
+						for i := range out {
+							out[i] = at(i)
+						}
+						return out
+					}
+					q.Wide, q.Words = g(4, func(i int) interface{} { return wide[i] }), g(4, func(i int) interface{} { return words[i] })
+					q.Ratios, q.Times = g(4, func(i int) interface{} { return ratios[i] }), g(4, func(i int) interface{} { return times[i] })
+				}
+				want["started"] = okTime
+				if mask&1 != 0 {
+					q.Started = "last tuesday"
+					want["started"] = nil
+					wantPaths = append(wantPaths, "started")
+				}
+				var root *ggql.Root
+				switch mode {
+				case 0:
+					root = ggql.NewRoot(&C06TRoot{Query: q})
+				case 1:
+					root = ggql.NewRoot(c06TRes{q})
+				default:
+					if !generic {
+						continue // the list accessor of this AnyResolver knows []interface{} only
+					}
+					root = ggql.NewRoot(nil)
+					root.AnyResolver = c06TAny{q}
+				}
+				if err := root.ParseString(sdl); err != nil {
+					panic(core.EngineError{Msg: "C06 typed-slice schema refused: " + err.Error()})
+				}
+				c.Eval()
+				c.R.Distinct++
+				c.Nontrivial()
+				var res map[string]interface{}
+				pi := core.Safe(func() { res = root.ResolveString("{ wide words ratios times started }", "", nil) })
+				detail := map[string]interface{}{"failing_positions_mask": mask, "carrier": map[bool]string{false: "typed slices ([]int64, []string, []float64, []string)", true: "[]interface{}"}[generic], "mode": []string{"reflection", "Resolver", "AnyResolver"}[mode], "response": res}
+				if pi != nil {
+					c.Violation("panic", map[string]string{"site": pi.Site, "class": pi.Class}, detail)
+					continue
+				}
+				var gotPaths []string
+				if es, ok := res["errors"].([]interface{}); ok {
+					for _, e := range es {
+						if em, ok := e.(map[string]interface{}); ok {
+							gotPaths = append(gotPaths, world.PathString(asPath(em["path"])))
+						}
+					}
+				}
+				sort.Strings(gotPaths)
+				sort.Strings(wantPaths)
+				attrs := map[string]string{"part": "typed-slices", "strategy": []string{"FS", "RS", "AS"}[mode], "carrier": map[bool]string{false: "typed", true: "generic"}[generic]}
+				if dd := world.Diff(world.Canon(want), world.Canon(res["data"]), ""); dd != "" {
+					detail["diff"] = dd
+					c.Outcome("typed-slice-data-diff")
+					c.Violation("data-diff", attrs, detail)
+				} else if !world.SameStrings(gotPaths, wantPaths) {
+					detail["diff"] = fmt.Sprintf("error paths: want %v got %v", wantPaths, gotPaths)
+					c.Outcome("typed-slice-err-diff")
+					c.Violation("err-diff", attrs, detail)
+				} else {
+					c.Outcome("typed-slice-agree")
+				}
+			}
+		}
+	}
 }
